@@ -60,7 +60,7 @@ func modes(ms ...int64) [][]int64 {
 
 func init() {
 	codec := &Prop{
-		ID: "C11", Label: "codec", Dir: "/repo", HarnessDirs: []string{"c11"}, Pkg: tgPath + "plugin",
+		ID: "C11", Label: "codec", HarnessDirs: []string{"c11"}, Pkg: tgPath + "plugin",
 		Prepare: prepareC11,
 		Diff:    []string{"D_C11_corpus"},
 		Harnesses: []Harness{
@@ -85,7 +85,7 @@ func init() {
 			"string lengths and container lengths below the root node are concrete per mode; their contents are symbolic"},
 	}
 	gen := &Prop{
-		ID: "C11", Label: "generate", Dir: "/repo", HarnessDirs: []string{"c11g"}, Pkg: tgPath + "generator",
+		ID: "C11", Label: "generate", HarnessDirs: []string{"c11g"}, Pkg: tgPath + "generator",
 		Harnesses: []Harness{
 			{Func: "H_C11_generate", Quick: modes(0, 1, 2), Thorough: modes(0, 1, 2, 3), Covers: []string{"ok", "error"}},
 			{Func: "H_C11_unanchored", Covers: []string{"end"}},
